@@ -3,6 +3,7 @@ import itertools
 from functools import lru_cache
 
 import numpy as np
+from mc.ref.linalg import allclose as _close
 
 from mc.engine import Section, jdump
 from mc.lib import mk_op, op_terms, coef
@@ -14,6 +15,7 @@ RULE = ("every ordered pair of Pauli strings on <=3 qubits x operations {*,+,-},
         "non-trivial = reference result is a non-zero matrix and at least one operand is a non-constant operator "
         "(for products of terms additionally counted: pairs with an anticommuting factor); distinct = canonical case json")
 RULE += ' Also: terms that tie on support and coefficient in every order, like coefficients inside one hash bucket that differ by more than the tolerance, rounding residues (0.1+0.2-0.3) under simplify.'
+RULE += ' Round 6: one-term sums against numbers; powers of families of nearly equal sums in one process; results of arithmetic times 0 / 1e-12 / divided by 1e12 (both sides equal, no ~0 residue after simplify).'
 RULE += ' Round 5: the same small coefficient (1e-7..1e-3) on different strings is unequal; operators against plain numbers on either side (zero-coefficient strings, empty sum); operands of 1e-12..5e-9 times / divided by 1e8..1e9 factors.'
 ASSUMPTIONS = ["numpy dense arithmetic is correct", "PauliTerm.coefficient/.operations and PauliSum.terms are the public observables of an operator",
                "coefficients are far (>=0.25) from the library's 1e-8 tolerance edge"]
@@ -92,9 +94,9 @@ def binop(case):
     else:
         raise ValueError(op)
     G = impl_matrix(got)
-    ok = np.allclose(G, exp, atol=ATOL)
+    ok = _close(G, exp, atol=ATOL)
     # the receivers must still denote what they denoted
-    ok2 = np.allclose(impl_matrix(a), A, atol=ATOL) and np.allclose(impl_matrix(b), B, atol=ATOL)
+    ok2 = _close(impl_matrix(a), A, atol=ATOL) and _close(impl_matrix(b), B, atol=ATOL)
     r = {"ok": bool(ok and ok2), "nt": bool(np.abs(exp).max() > 1e-12 and (nonconst(case["a"]) or nonconst(case["b"]))),
          "out": type(got).__name__ + ":" + str(len(got.terms)) + (":anti" if op == "mul" and anticommuting(case["a"], case["b"]) else "")}
     if not r["ok"]:
@@ -138,12 +140,64 @@ def powop(case):
     if bad:
         return {"ok": False, "msg": "power %r accepted" % (k,), "observed": repr(got), "sig": "pow:accepted-bad"}
     exp = np.linalg.matrix_power(A, k)
-    ok = np.allclose(impl_matrix(got), exp, atol=ATOL)
+    ok = _close(impl_matrix(got), exp, atol=ATOL)
     r = {"ok": bool(ok), "nt": bool(k >= 2 and nonconst(case["a"])), "out": "pow%d:%d" % (k, len(got.terms))}
     if not ok:
         r.update(msg="a**%d differs from repeated matrix product" % k, expected=str(np.round(exp, 6).tolist())[:600],
                  observed=repr(got)[:300], sig="pow")
     return r
+
+
+def pow_history_case(case):
+    """{'ops': [sum descriptors], 'ks': [exponents]}: powers of several operators - among them NEARLY equal ones, as in a finite-difference sweep - taken one after the other in one
+    process: each power is the repeated matrix product of ITS OWN base (to 1e-9), whatever was raised to that power before; the bases are unchanged"""
+    k_ = 0
+    for rnd in range(2):
+        for d in case["ops"]:
+            for k in case["ks"]:
+                a = mk_op(d)
+                before = jdump(sorted(map(jdump, op_terms(a))))
+                got = a ** k
+                k_ += 1
+                exp = np.linalg.matrix_power(ref_matrix(d), k)
+                if not _close(impl_matrix(got), exp, atol=1e-9 * max(1.0, np.abs(exp).max())):
+                    return {"ok": False, "msg": "(%s)**%d, taken after powers of nearby operators, differs from the repeated matrix product of its own base by %.3e" % (
+                        repr(a)[:120], k, np.abs(impl_matrix(got) - exp).max()), "sig": "pow-history", "ops": k_}
+                if jdump(sorted(map(jdump, op_terms(a)))) != before:
+                    return {"ok": False, "msg": "** modified its base", "sig": "pow-history:mutated", "ops": k_}
+    return {"ok": True, "nt": True, "ops": k_, "out": "powhist"}
+
+
+def scalar_simplify_case(case):
+    """{'a': sum descriptor, 'via': how the sum is produced}: a sum that is the RESULT of arithmetic is multiplied by 0 / a tiny number on either side, or divided by a huge one:
+    both orders are equal operators, simplify leaves no ~0 term behind (the zero operator simplifies to the empty sum), and the small quotient equals the small product"""
+    from orquestra.quantum.operators import PauliSum, PauliTerm
+    base = mk_op(case["a"])
+    S = {"as-built": lambda: base, "simplified": lambda: base.simplify(), "sum+0": lambda: base + PauliTerm("I0", 0), "product": lambda: base * PauliTerm("I0", 1.0), "copy-simplified-twice": lambda: base.simplify().simplify(),
+         "sum-sum": lambda: (base + base) - base}[case["via"]]()
+    A = impl_matrix(S)
+    k_ = 0
+    for sc in (0, 0.0, 0j, 1e-12, -1e-13, complex(0, 1e-12)):
+        L_, R_ = sc * S, S * sc
+        k_ += 2
+        for nm, o in (("number * sum", L_), ("sum * number", R_)):
+            if not _close(impl_matrix(o), sc * A, atol=ATOL):
+                return {"ok": False, "msg": "%s with the number %r does not denote the scaled matrix" % (nm, sc), "sig": "scalar-simplify:matrix", "ops": k_}
+            t = o.simplify()
+            if any(abs(c) <= 1e-8 for c, _ in op_terms(t)):
+                return {"ok": False, "msg": "(%s with %r).simplify() keeps terms with ~0 coefficients: %r" % (nm, sc, t), "sig": "scalar-simplify:residue", "ops": k_}
+            if not (t == PauliSum()) or not (PauliSum() == t) or not (o == 0):
+                return {"ok": False, "msg": "%s with %r is the zero operator but does not compare equal to the empty sum / to 0 (simplified: %r)" % (nm, sc, t), "sig": "scalar-simplify:zero", "ops": k_}
+        if not (L_ == R_) or not (L_.simplify() == R_.simplify()):
+            return {"ok": False, "msg": "%r * sum and sum * %r are unequal operators" % (sc, sc), "observed": repr(L_)[:200] + " vs " + repr(R_)[:200], "sig": "scalar-simplify:sides", "ops": k_}
+    for big in (1e12, -4e13):
+        D_, P_ = S / big, S * (1 / big)
+        k_ += 1
+        if not (D_.simplify() == P_.simplify()) or not (D_ == P_) or any(abs(c) <= 1e-8 for c, _ in op_terms(D_.simplify())):
+            return {"ok": False, "msg": "sum / %g and sum * %g are unequal, or the quotient keeps ~0 terms after simplify" % (big, 1 / big), "observed": repr(D_.simplify())[:200], "sig": "scalar-simplify:quotient", "ops": k_}
+    if not _close(impl_matrix(S), A, atol=ATOL):
+        return {"ok": False, "msg": "scaling modified its operand", "sig": "scalar-simplify:mutated"}
+    return {"ok": True, "nt": True, "ops": k_, "out": case["via"]}
 
 
 def simplify_case(case):
@@ -152,12 +206,12 @@ def simplify_case(case):
     A = ref_matrix(case["a"])
     t = s.simplify()
     u = t.simplify()
-    ok = np.allclose(impl_matrix(t), A, atol=ATOL)
+    ok = _close(impl_matrix(t), A, atol=ATOL)
     idem = jdump(sorted(map(jdump, op_terms(u)))) == jdump(sorted(map(jdump, op_terms(t))))
     # simplified: no two terms with the same string, no ~0 coefficient
     keys = [tuple(sorted(o.items())) for _, o in op_terms(t)]
     canon = len(keys) == len(set(keys)) and all(abs(c) > 1e-8 for c, _ in op_terms(t))
-    same_src = np.allclose(impl_matrix(s), A, atol=ATOL)
+    same_src = _close(impl_matrix(s), A, atol=ATOL)
     r = {"ok": bool(ok and idem and canon and same_src and isinstance(t, PauliSum)), "nt": len(case["a"]["s"]) >= 2,
          "out": "%d->%d" % (len(case["a"]["s"]), len(t.terms))}
     if not r["ok"]:
@@ -174,7 +228,7 @@ def eq_case(case):
     if hasattr(y, "simplify"):
         y = y.simplify()
     X, Y = impl_matrix(x), impl_matrix(y)
-    same = bool(np.allclose(X, Y, atol=1e-8))
+    same = bool(_close(X, Y, atol=1e-8))
     got = bool(x == y)
     got2 = bool(y == x)
     ok = got == same and got2 == same
@@ -209,7 +263,7 @@ def construction_case(case):
     ref = _sm(tuple(sorted((int(q), p) for q, p in ops.items())))
     k = 0
     for i, a in enumerate(objs):
-        if not np.allclose(impl_matrix(a), ref, atol=ATOL):
+        if not _close(impl_matrix(a), ref, atol=ATOL):
             return {"ok": False, "msg": "construction %d of the string denotes another matrix" % i, "observed": repr(a), "sig": "construction:matrix"}
         for j, b in enumerate(objs):
             k += 1
@@ -250,7 +304,7 @@ def edge_case(case):
     return {"ok": True, "nt": True, "ops": k, "out": "edges"}
 
 
-FUNCS = {"far_qubits": far_case, "equality_edges": edge_case, "construction": construction_case, "term_pairs": binop, "term_coeffs": binop, "scalars": binop, "near_operands": binop, "scale": binop, "powers": powop, "sum_pairs": binop, "mixed": binop,
+FUNCS = {"power_histories": pow_history_case, "scalar_simplify": scalar_simplify_case, "far_qubits": far_case, "equality_edges": edge_case, "construction": construction_case, "term_pairs": binop, "term_coeffs": binop, "scalars": binop, "near_operands": binop, "scale": binop, "powers": powop, "sum_pairs": binop, "mixed": binop,
          "simplify": simplify_case, "equality": eq_case}
 
 PAULIS = "IXYZ"
@@ -413,6 +467,9 @@ def run(run):
     # operators against plain numbers, number on either side: a zero coefficient on any string is the zero operator, a constant term is its number
     numbers = [{"n": v} for v in (0, 0.0, [0, 0], 1, 1.0, -2.5, [0, 0.5], 3.0, 1e-9, [1, 1e-12])]
     opnds = [{"t": [c, st]} for st in ({}, {"0": "X"}, {"1": "Z", "2": "Y"}, {"3": "X", "1": "Z"}) for c in (0, 0.0, [0, 0], 1.0, -2.5, [0, 0.5], 3, 1e-9)]
+    # sums that are (or simplify to) exactly ONE non-constant term are not numbers
+    opnds += [{"s": s_} for s_ in ([[1.0, {"0": "X"}]], [[2.5, {"0": "Y", "1": "Z"}]], [[2.5, {"0": "Y", "1": "Z"}], [1.0, {"0": "Z"}], [-1.0, {"0": "Z"}]], [[-2.5, {"1": "Z"}]], [[[0, 1], {"2": "X"}]],
+                                   [[1e-3, {"0": "X"}]], [[0.5, {"1": "Y"}], [0.5, {"1": "Y"}]])]
     opnds += [{"s": s_} for s_ in ([], [[0, {"0": "X"}]], [[3.0, {}]], [[1.0, {}], [2.0, {}]], [[1.0, {"0": "X"}], [-1.0, {"0": "X"}]], [[-2.5, {}], [0.0, {"1": "Y"}]], [[1.0, {}], [1.0, {"0": "Z"}]])]
     cases += [{"a": a, "b": b} for a in opnds for b in numbers] + [{"a": b, "b": a} for a in opnds for b in numbers]
     secs.append(Section("equality", cases, eq_case, desc="== on all ordered pairs of simplified pool members vs matrix equality"))
@@ -422,6 +479,17 @@ def run(run):
             qs = sorted(int(q) for q in st)
             cases.append({"ops": st, "orders": [list(p) for p in itertools.permutations(qs)]})
     secs.append(Section("construction", cases, construction_case, desc="every string with >=2 factors built in every qubit order (dict order, product order): ==, simplify merges, sums equal"))
+    ph = []
+    for basec in (0.5, 2.0, -1.25):
+        for dl in (1e-7, 3e-7, -2e-7, 1e-6):
+            fam = [{"s": [[basec * (1 + j * dl), {"0": "X"}], [1.0, {"1": "Z"}], [0.75 * (1 - j * dl), {"0": "Y", "1": "X"}]]} for j in range(4)]
+            ph.append({"ops": fam, "ks": [2, 3]})
+            ph.append({"ops": fam[::-1] + [{"s": [[basec, {"0": "X"}], [1.0 + dl, {"1": "Z"}]]}, {"s": [[basec, {"0": "X"}], [1.0, {"1": "Z"}]]}], "ks": [3, 2, 4]})
+    secs.append(Section("power_histories", ph, pow_history_case, chunk=1, desc="powers 2-4 of families of nearly equal sums (like coefficients 1e-7..1e-6 apart, a finite-difference sweep) taken one after the other in one process"))
+    sb = [{"s": s_} for s_ in ([[1.0, {"0": "X"}], [2.0, {"1": "Z"}]], [[1.0, {"0": "X"}], [2.0, {"1": "Z"}], [1.0, {"0": "X"}]], [[0.5, {"0": "Y", "1": "X"}], [2.0, {}], [[0, 1], {"2": "Z"}]], [[3.0, {}]],
+                                [[1.0, {"0": "Z"}], [-1.0, {"0": "Z"}], [2.0, {"1": "X"}]])]
+    secs.append(Section("scalar_simplify", [{"a": a_, "via": v_} for a_ in sb for v_ in ("as-built", "simplified", "sum+0", "product", "copy-simplified-twice", "sum-sum")], scalar_simplify_case,
+                        desc="results of arithmetic times 0 / 1e-12 on either side, divided by 1e12: both sides equal, simplify leaves no ~0 term, the zero operator equals the empty sum and 0"))
     M = 4000 if thorough else 800
     secs.append(Section("equality_edges", [{"m0": i, "m1": i + 50} for i in range(0, M, 50)], edge_case,
                         desc="equality of operators whose coefficients straddle an edge of the 1e-6 hash grid (whole and half points, +-ulp, +-1e-12), grid indices 0..%d" % M))
